@@ -228,7 +228,9 @@ def check_blocks(out, cls, p, n, runners, kmax=400):
     rep = {"class": cls, "params": p, "n": n, "kind": "blocks", "delays": delays}
     (s1, d1), (s2, d2) = delays
     if s1 == "ok" and s2 == "ok":
-        if (d1 is None) != (d2 is None):
+        if cls == "HDDMW" and d1 is not None and (d2 is None or d2 > d1) and "KF-C04-1" in out.findings:
+            out.findings["KF-C04-1"].hits += 1     # rise flagged, drop missed / later: zero-initialised EWMAs (recorded finding)
+        elif (d1 is None) != (d2 is None):
             out.violation(f"{cls} two-sided: rise after {n} flagged with delay {d1}, drop with delay {d2} (one of them never within {kmax})", rep)
         elif cls == "HDDMA" and d1 != d2:
             out.violation(f"HDDMA two-sided: rise delay {d1} differs from drop delay {d2} after {n} stable values", rep)
@@ -255,6 +257,8 @@ def run(out: Outcome) -> None:
             check_blocks(out, cls, p, rng.choice([p["min_num_instances"], 30, 57, 100]), runners)
     for _ in range(2 * n_rand):
         check_flip(out, gen.rand_params(rng, "HDDMA"), gen.unit_stream(rng, rng.randint(10, 300)), runners)
+    if "KF-C04-1" in out.findings:
+        check_blocks(out, "HDDMW", {"alpha_d": 0.2, "alpha_w": 0.5, "lambda_": 0.1, "min_num_instances": 5}, 5, [])
     validated = corr.compare_batch(out, runners)
     # a flip difference counts only when neither run hit a near-tie before it (decided by the model's tie detector)
     idx = {id(r): v for r, v in zip(runners, validated)}
